@@ -33,7 +33,8 @@ def budget(tier):
 def strategy(tier):
     return project_strategy(
         calls_per_op=3 if tier == "quick" else 8,
-        doc_kw={"n_ops": (1, 3), "n_frags": (0, 4)},
+        doc_kw={"n_ops": (1, 3), "n_frags": (0, 6)},
+        ops_kw={"frag_p": 0.6},
         schema_kw={"defaults": 0.15},
     )
 
